@@ -48,6 +48,9 @@ def main():
                             bad[cn] = f"{n - cs['agree']}/{n} runs disagree"
                         elif cs.get("disagreements"):
                             bad[cn] = f"{cs['disagreements']} disagreements"
+                for l_ in r.stdout.splitlines():
+                    if "correspondence obligation broken:" in l_ and not bad:
+                        bad["(reported)"] = l_.split("correspondence obligation broken:", 1)[1].strip(" )")[:200]
                 how["correspondence_broken"] = bad
                 how["failing_inputs_found_by_search"] = int(ev.get("violations", 0)) if "violations" in ev else None
             except Exception as e:  # noqa
@@ -78,7 +81,7 @@ def main():
     meta = json.load(open(meta_p)) if os.path.exists(meta_p) else {}
     meta.update(
         property=agent.get("property") or meta.get("property") or os.path.basename(d).split("-")[0],
-        change=agent.get("summary") or agent.get("description") or agent.get("what") or meta.get("change", ""),
+        change=agent.get("change") or agent.get("summary") or agent.get("description") or agent.get("what") or meta.get("change", ""),
         needs_to_manifest=agent.get("needs") or agent.get("needs_to_manifest") or agent.get("trigger") or meta.get("needs_to_manifest", ""),
         files=agent.get("files") or meta.get("files", []),
         origin="written by a sub-agent that saw only the property text and a scratch worktree of /repo; confirmed here",
